@@ -10,7 +10,7 @@
 From Coq Require Import List NArith ZArith Bool.
 Import ListNotations.
 From LV Require Import Model.Base Model.Template Model.Eval Model.Derived Model.EvalRun
-  Proofs.FrameProofs Proofs.FrameTheorem Proofs.RestrictProofs Proofs.SufficientProofs
+  Proofs.FrameProofs Proofs.TemplateFrame Proofs.FrameTheorem Proofs.RestrictProofs Proofs.SufficientProofs
   Proofs.CleanProofs Proofs.FingerprintProofs Proofs.CacheSim Proofs.CoveredDefs Proofs.CoveredProofs.
 
 Notation evalN u fuel := (eval unit nc_find nc_store cfg_nc u fuel (fun _ _ => true)).
@@ -23,10 +23,12 @@ Notation keysN u fuel := (keys unit nc_find nc_store cfg_nc u fuel (fun _ _ => t
     with caching switched off for that dictionary.  [run_hist] threads the real memo store
     through the history; [ref_op] is the cache-free reference, each operation on its own.
     Hypothesis [hist_ok]: each operation's expression is covered for the operation's dictionary
-    ([scoh], all about the cache-free semantics): every constructor except Map, Template nodes,
-    AllOptions; pre-set / default wrappers hand their sub-expression
+    ([scoh], all about the cache-free semantics): every constructor except Map and
+    AllOptions (Template nodes included); pre-set / default wrappers hand their sub-expression
     the overlaid dictionary; each cache id is used with one cached expression, which is in [frag];
-    and every dictionary that reaches a cache site is [okd] — well formed and, for every cached
+    and every dictionary that reaches a cache site is [okd] — well formed, using no option name of the range the
+    model reserves for Template parameters ([no_par]: names >= 10^6, a model artefact the harness
+    never generates) and, for every cached
     expression, clean ([clean_at]: present options read are reported by keys(); the zones of
     D1/D3/D4/D9/D19 are excluded), free of stored generators (D21) and satisfying C10's agreement
     as far as Cached relies on it ([agree_at]); the effects switch LABREA.EFFECTS.DISABLED has one
@@ -82,7 +84,7 @@ Print Assumptions C01_history_independent_of_switches.
     present option the evaluation reads is reported by keys(); false exactly in the zones of the
     known findings D1/D3/D4/D9/D19, refuted below). *)
 Theorem C01_equal_fingerprint_equal_outcome : forall u fuel e o o' f,
-  frag e = true -> wf_dict o = true -> wf_dict o' = true ->
+  frag e = true -> wf_dict o = true -> wf_dict o' = true -> no_par o = true -> no_par o' = true ->
   clean_at u fuel e o = true -> clean_at u fuel e o' = true ->
   esw_stable u fuel e o -> esw_stable u fuel e o' -> effects_opt_off o' = effects_opt_off o ->
   fingerprintN u fuel e o = Ok f -> fingerprintN u fuel e o' = Ok f ->
@@ -94,7 +96,7 @@ Print Assumptions C01_equal_fingerprint_equal_outcome.
     (i) is present in one of them and (ii) covers every present option either evaluation reads,
     evaluate alike. *)
 Theorem C01_same_reported_same_outcome : forall u fuel e o o' K,
-  frag e = true -> wf_dict o = true -> wf_dict o' = true ->
+  frag e = true -> wf_dict o = true -> wf_dict o' = true -> no_par o = true -> no_par o' = true ->
   good_keys K -> all_present K o ->
   (forall k, In k K -> lookup k (JObj o') = lookup k (JObj o)) ->
   RR K o (snd (evalN u fuel e o tt)) -> RR K o' (snd (evalN u fuel e o' tt)) ->
@@ -124,6 +126,17 @@ Example C01_hypotheses_satisfiable :
   fingerprintN u0 10 e_ok o2 = Ok [(kA, JInt 1); (kB, JInt 9)] /\ o1 <> o2.
 Proof. vm_compute. repeat split; congruence. Qed.
 
+
+(** the same for a Template node with an option reference and a parameter: "x{A}{p}" with p = Option(B) *)
+Definition e_tpl : expr := ETemplate [TLit 120; TRef kA; TPar 0] [(0%N, EOption kB None None)].
+Example C01_template_hypotheses_satisfiable :
+  frag e_tpl = true /\ wf_dict o1 = true /\ wf_dict o2 = true /\ no_par o1 = true /\ no_par o2 = true /\
+  clean_at u0 10 e_tpl o1 = true /\ clean_at u0 10 e_tpl o2 = true /\
+  fingerprintN u0 10 e_tpl o1 = Ok [(kA, JInt 1); (kB, JInt 9)] /\
+  fingerprintN u0 10 e_tpl o2 = Ok [(kA, JInt 1); (kB, JInt 9)] /\ o1 <> o2 /\
+  fst (fst (evalN u0 10 e_tpl o1 tt)) = Ok (VJ (JStr [TLit 120; TLit 49; TLit 57])).
+Proof. vm_compute. repeat split; congruence. Qed.
+
 (** a history on one long-lived dataset-shaped node — default options {B: 9} overlaid by the
     caller overlaid by pre-set options {Z: 1}, around the cache site — that satisfies the
     hypotheses: a miss, a hit under a dictionary that differs in an unrelated key and in key
@@ -148,6 +161,7 @@ Proof.
   intros Ho. split.
   - cbn in Ho. repeat (destruct Ho as [<-|Ho]; [reflexivity|]). destruct Ho.
   - split; [cbn in Ho; repeat (destruct Ho as [<-|Ho]; [reflexivity|]); destruct Ho|].
+    split; [cbn in Ho; repeat (destruct Ho as [<-|Ho]; [reflexivity|]); destruct Ho|].
     intros c b Hs. unfold sites0 in Hs. destruct (N.eqb c 1); [|discriminate]. inversion Hs; subst b.
     cbn in Ho.
     repeat (destruct Ho as [<-|Ho]; [
